@@ -972,9 +972,14 @@ class Parser:
         """Parse postfix expression (member access, calls, postfix ++/--)."""
         return self._parse_postfix_operators(self._parse_new_expression())
 
-    def _parse_postfix_operators(self, expr: Node) -> Node:
-        """Apply member accesses, calls and postfix ++/-- to an already parsed operand."""
+    def _parse_postfix_operators(self, expr: Node, members_only: bool = False) -> Node:
+        """Apply member accesses, calls and postfix ++/-- to an already parsed operand.
+
+        With members_only (the callee of `new`) only .name and [index] are applied.
+        """
         while True:
+            if members_only and not self._check(TokenType.DOT, TokenType.LBRACKET):
+                break
             if self._match(TokenType.DOT):
                 # Member access: a.b (keywords allowed as property names)
                 if self._check(TokenType.IDENTIFIER):
@@ -1012,7 +1017,10 @@ class Parser:
     def _parse_new_expression(self) -> Node:
         """Parse new expression."""
         if self._match(TokenType.NEW):
-            callee = self._parse_new_expression()
+            # new a.b.C(args): the callee is the whole member chain, not just `a`
+            callee = self._parse_postfix_operators(
+                self._parse_new_expression(), members_only=True
+            )
             args: List[Node] = []
             if self._match(TokenType.LPAREN):
                 args = self._parse_arguments()
